@@ -23,6 +23,10 @@ type AnalyzeUseCaseConfig struct {
 	SkipLCOM       bool
 	SkipSystem     bool
 
+	// ExplicitSelection is set when the caller named the analyses to run (--select):
+	// the [dead_code] enabled switch of the configuration file then does not apply
+	ExplicitSelection bool
+
 	MinComplexity   int
 	MinSeverity     domain.DeadCodeSeverity
 	CloneSimilarity float64
@@ -201,6 +205,12 @@ func (uc *AnalyzeUseCase) Execute(ctx context.Context, useCaseCfg AnalyzeUseCase
 	includePatterns, excludePatterns, recursive, patternErr := uc.getFilePatterns(useCaseCfg.ConfigFile)
 	if patternErr != nil {
 		return nil, patternErr
+	}
+
+	// [dead_code] enabled = false in the configuration file switches dead code detection
+	// off (the file-side counterpart of --skip-deadcode) unless it was selected explicitly
+	if !useCaseCfg.ExplicitSelection && uc.deadCodeDisabledInConfig(useCaseCfg.ConfigFile) {
+		useCaseCfg.SkipDeadCode = true
 	}
 
 	// Validate and collect files using configured patterns
@@ -663,6 +673,15 @@ func (uc *AnalyzeUseCase) getFilePatterns(configPath string) ([]string, []string
 	}
 
 	return includePatterns, excludePatterns, recursive, nil
+}
+
+// deadCodeDisabledInConfig reports whether the configuration file sets [dead_code] enabled = false
+func (uc *AnalyzeUseCase) deadCodeDisabledInConfig(configPath string) bool {
+	if configPath == "" {
+		return false
+	}
+	cfg, err := config.LoadConfig(configPath)
+	return err == nil && cfg != nil && !cfg.DeadCode.Enabled
 }
 
 // getLSHConfig loads LSH configuration settings for clone detection
